@@ -318,11 +318,38 @@ def _report(ck: Ck, n_nt: int, wall_s: float) -> int:
     return 0
 
 
+class CaseWatchdog(Exception):
+    """A single case exceeded its generous wall-clock watchdog: inconclusive, never a violation."""
+
+
+def _alarm(signum, frame):  # noqa: ARG001
+    raise CaseWatchdog()
+
+
 def run_cases(ck: Ck, mod, descs):
+    import signal
+
+    limit = int(getattr(mod, "CASE_WATCHDOG_S", 300))
+    can_alarm = hasattr(signal, "SIGALRM")
+    if can_alarm:
+        signal.signal(signal.SIGALRM, _alarm)
     for desc in descs:
         ck.begin(desc)
         try:
-            r = mod.run_case(ck, desc)
+            if can_alarm:
+                signal.alarm(limit)
+            try:
+                r = mod.run_case(ck, desc)
+            finally:
+                if can_alarm:
+                    signal.alarm(0)
+        except CaseWatchdog:
+            ck.inconclusive_because(f"a case exceeded the {limit} s per-case watchdog (case {case_hash(desc)})")
+            ck.count("cases_stopped_by_watchdog")
+            r = (False, {"watchdog": True})
+            if ck.monitors.get("cases_stopped_by_watchdog", 0) >= 3:
+                ck.end(False, r[1])
+                break
         except Exception as e:  # noqa: BLE001  the real code (or the harness) blew up
             ck.violation(
                 "unexpected-exception",
